@@ -25,7 +25,8 @@ META = {
         " Also: __eq__ is value equality on what __hash__ hashes and never converts its operand, the direction letter is split off before the OCR scrub, the OCR table leaves placeholder characters alone, '' / None map to undefined on every entry route, component regexes are case-closed w.r.t. the unpacker that embeds them."
         ' Round 7: emptiness is tested on the value that is used (no strip after the test); is_error / is_undef tables; __eq__ answers True only to a TRS; the string is lower-cased before the case-insensitive unpacker captures its parts.'
         " Round 8: a default direction is lower-cased before it is appended; str() is not applied before the '' / None test."
-        " Round 9: no comparison across components (`group('rge') == _UNDEF_TWP`); validation is not an elif of the building branch; public functions never return the cached dict."),
+        " Round 9: no comparison across components (`group('rge') == _UNDEF_TWP`); validation is not an elif of the building branch; public functions never return the cached dict."
+        ' Round 11: derived placeholders are rebuilt from parts of their own kind (shared with C15); witnesses are lower-cased as trs_to_dict does.'),
     'families': ['RX-ANCHOR', 'RX-LANG', 'RX-DEADALT', 'DEFUSE', 'SIB', 'FORWARD', 'DEADPARAM', 'SIB-DEFAULTS'],
 }
 
@@ -97,7 +98,7 @@ def check(ctx):
     # language facts on the unpacker
     ctx.attempt(_inc, 'RX-LANG', 'TRS._TRS_UNPACKER_REGEX', F.TRS_CANON, rv, 'canonical ###n###w##')
     L = common.lang(ctx, rv)
-    lowered = 'lower' in flow.prov_calls(_subject_prov(ctx, trs_to_dict))
+    lowered = any(c_.split('.')[-1] == 'lower' for c_ in flow.prov_calls(_subject_prov(ctx, trs_to_dict)))
     ctx.notes['trs_to_dict_lowercases_input'] = lowered
     conv = (lambda s: s.lower()) if lowered else (lambda s: s)
     members = [
@@ -151,6 +152,8 @@ def check(ctx):
     ctx.attempt(_ocr_table)
     ctx.attempt(forward.check_all, module_suffixes=('trs.trs', 'tract.tract'))
     ctx.attempt(error_undef_tables)
+    from .c15 import placeholder_kinds       # the undefined TRS stays undefined after _recompile()
+    ctx.attempt(placeholder_kinds)
     ctx.attempt(lowered_before_unpack)
     ctx.attempt(canonical_case_and_none)
     from .c15 import _escape                 # the decomposition handed out is the caller's own copy
@@ -345,6 +348,7 @@ def _ocr_table(ctx):
         if isinstance(c, ast.Call) and (dotted(c.func) or '').endswith('maketrans') and c.args \
                 and isinstance(c.args[0], ast.Constant) and isinstance(c.args[0].value, str):
             src |= set(c.args[0].value)
+    src |= {k for k in common.char_table(ctx, fi) if isinstance(k, str) and len(k) == 1}
     construct = 'ocr_scrub_alpha_to_num leaves the undefined / error placeholders alone'
     if not src:
         ctx.undecided('TBL', construct, 'look-alike table not recognised')
@@ -688,3 +692,25 @@ def validation_on_every_path(ctx, rule='DEFUSE'):
                       key=f"{rule}|construct_trs|validation-elif|{norm(m[0])[:30]}", where=common.loc(ct, node))
     if n == 0:
         ctx.undecided(rule, 'construct_trs validates every component', 'validation tests not found')
+
+
+def unpacker_members(ctx, rule_pos='RX-LANG'):
+    """every kind of standard-form string (valid, error / undefined
+    placeholders, mixed) is matched as a whole by the unpacker in the case it
+    reaches it (trs_to_dict lower-cases first): partial-error strings keep
+    their valid components.  Shared by C18 (filter_errors / group_by read
+    those components)."""
+    rv = unpacker(ctx)
+    mc = lambda a: ctx.fold.get_attr('master_config', 'MasterConfig', a)
+    ERR_TWP, ERR_RGE, ERR_SEC = mc('_ERR_TWP'), mc('_ERR_RGE'), mc('_ERR_SEC')
+    UND_TWP, UND_RGE, UND_SEC = mc('_UNDEF_TWP'), mc('_UNDEF_RGE'), mc('_UNDEF_SEC')
+    L = common.lang(ctx, rv)
+    trs_to_dict = ctx.repo.func('TRS.trs_to_dict')
+    lowered = any(c_.split('.')[-1] == 'lower' for c_ in flow.prov_calls(_subject_prov(ctx, trs_to_dict)))
+    conv = (lambda s: s.lower()) if lowered else (lambda s: s)
+    for s in ('154n97w14', '154n' + ERR_RGE + '14', ERR_TWP + '97w14', '154n97w' + ERR_SEC,
+              UND_TWP + '97w01', '154n' + UND_RGE + '01', '154n97w' + UND_SEC, UND_TWP + ERR_RGE + '07'):
+        ctx.check(L.fullmatch(conv(s)), rule_pos, f"{s!r} decomposes (as {conv(s)!r})",
+                  detail_bad=f"{s!r} reaches the unpacker as {conv(s)!r} and is not matched as a whole: the string collapses to the "
+                             f"all-error TRS, so a tract with ONE bad component is reported (filter_errors, group_by) as bad in all three",
+                  key=f"{rule_pos}|unpacker|member|{s}")
